@@ -17,6 +17,8 @@ import pyairtouch.comms.socket as psock  # noqa: E402
 
 
 class RxRig:
+    N_RIGS = 0
+
     def __init__(self, gen: int) -> None:
         self.gen = gen
         from . import bystander
@@ -28,6 +30,11 @@ class RxRig:
         self.delivered: list[tuple] = []
         self.raising = False
         self.sock.subscribe_on_message_received(self._on_msg)
+        RxRig.N_RIGS += 1
+        if RxRig.N_RIGS % 2 == 0:
+            # registering the same callback again has no effect (a client object that is initialised a second time
+            # does exactly this): every other rig in the process does so
+            self.sock.subscribe_on_message_received(self._on_msg)
         t = self.loop.create_task(self.sock.open_socket())
         self.loop.settle()
         self.connect()
@@ -49,7 +56,7 @@ class RxRig:
             self.loop.advance_to(nt)
         return self.sock.is_connected
 
-    def feed(self, chunks: list[bytes], turns: int = 0) -> None:
+    def feed(self, chunks: list[bytes], turns: int = 0, then_eof: bool = False) -> None:
         conn = self.net.current()
         if conn is None:
             return
@@ -59,6 +66,9 @@ class RxRig:
                 # run exactly one loop iteration
                 self.loop.call_soon(self.loop.stop)
                 self.loop.run_forever()
+        if then_eof:
+            # the console closes right behind its last byte: data and end-of-stream reach the client in the same pass
+            conn.transport.peer_eof()
         self.loop.settle()
 
     def take(self):
